@@ -402,6 +402,46 @@ def h_pack(n1, n2):
     return h
 
 
+PACK_FORMS = {
+    # name -> (format, number of positional values, keyword builder, expected pieces in written order as (kind, index))
+    'kw-name-last': ('uint:3, header', lambda a, b, y: ([a], {'header': y}), lambda a, b, y: [('u3', a), ('bits', y)]),
+    'kw-name-middle': ('uint:3, header, uint:5', lambda a, b, y: ([a, b], {'header': y}), lambda a, b, y: [('u3', a), ('bits', y), ('u5', b)]),
+    'kw-name-first': ('header, uint:3', lambda a, b, y: ([a], {'header': y}), lambda a, b, y: [('bits', y), ('u3', a)]),
+    'kw-value': ('uint:3=v, uint:5', lambda a, b, y: ([b], {'v': a}), lambda a, b, y: [('u3', a), ('u5', b)]),
+    'kw-length': ('uint:n, uint:5', lambda a, b, y: ([a, b], {'n': 3}), lambda a, b, y: [('u3', a), ('u5', b)]),
+    'literal-and-value': ('0b10, uint:3, bits', lambda a, b, y: ([a, y], {}), lambda a, b, y: [('lit', '10'), ('u3', a), ('bits', y)]),
+    'factor': ('2*uint:3, bits', lambda a, b, y: ([a, a, y], {}), lambda a, b, y: [('u3', a), ('u3', a), ('bits', y)]),
+    'list-format': (['uint:3', 'header, uint:5'], lambda a, b, y: ([a, b], {'header': y}), lambda a, b, y: [('u3', a), ('bits', y), ('u5', b)]),
+}
+
+
+def h_pack_forms(form):
+    """lsb0 pack order for every kind of token (positional, keyword name, keyword value, keyword length, literal, factor, list format):
+    the first written token ends at the least significant end, i.e. the stored order is the written order reversed"""
+    def h(K):
+        import bitstring
+        import bitarray.util as U
+        fmt, mkargs, mkexp = PACK_FORMS[form]
+        a, b = K.int('a', 0, 7), K.int('b', 0, 31)
+        y = K.bits('y', 2)
+        yb = mk(K, bitstring.Bits, y)
+        pos, kw = mkargs(a, b, yb)
+        _lsb0()
+        r = call(lambda: bitstring.pack(fmt, *pos, **kw))
+        _lsb0(False)
+        r0 = call(lambda: bitstring.pack(fmt, *pos, **kw))
+        if not (r.ok and r0.ok):
+            return K.fail('pack raised', exc=r.excname or r0.excname, form=form)
+        pieces = []
+        for kind, v in mkexp(a, b, yb):
+            pieces.append(U.int2ba(v, length=3) if kind == 'u3' else U.int2ba(v, length=5) if kind == 'u5' else O.from01(v) if kind == 'lit' else y)
+        if not K.check(same(raw(r0.value), O.ref_concat(*pieces)), 'msb0 pack must store the tokens in written order', form=form, got=raw(r0.value)):
+            return False
+        return K.check(same(raw(r.value), O.ref_concat(*pieces[::-1])), 'lsb0 pack must store the tokens in the reverse of the written order (first token at the least significant end)',
+                       form=form, got=raw(r.value), expected=O.ref_concat(*pieces[::-1]))
+    return h
+
+
 def h_toggle(n):
     """after any on/off toggle sequence ending in off, msb0 behaviour (method table and results) is restored exactly"""
     def h(K):
@@ -624,5 +664,7 @@ def conditions(tier):
             add(f'C12.read[{c},{tok},n=7]', h_read(c, 7, tok, L_), 'all 7-bit contents x all positions', tok=tok)
     for (n1, n2) in ([(3, 5)] if q else [(3, 5), (1, 1), (8, 9)]):
         add(f'C12.pack[{n1},{n2}]', h_pack(n1, n2), f'all values of uint:{n1}, uint:{n2}')
+    for form in PACK_FORMS:
+        add(f'C12.pack-forms[{form}]', h_pack_forms(form), 'all values of uint:3, uint:5 and a 2-bit bitstring; every way a token can receive its value')
     add('C12.toggle[n=4]', h_toggle(4), 'all toggle sequences of length 4 x all 4-bit contents x slices')
     return conds
